@@ -50,6 +50,16 @@ Theorem C13_omitted_only_if_implied : forall assumptions c,
   forall rho, sat_all rho assumptions -> cdefined rho c -> sat rho c.
 Proof. exact implied_under_sound. Qed.
 
+(* "A condition is omitted only if it is implied by the ones kept", explicitly: an input condition that no output
+   condition covers holds whenever the equalities of the input hold (an uncovered equality is an identity); the
+   equalities themselves are covered - kept - by C13_checker_sound unless they are identities. *)
+Theorem C13_omitted_condition_implied : forall d hs conds out,
+  check_pre d hs conds out = true ->
+  forall c, In c conds ->
+    cover d (if is_eq c then [] else filter is_eq conds) hs out c = [] ->
+    forall rho, cdefined rho c -> sat_all rho (if is_eq c then [] else filter is_eq conds) -> sat rho c.
+Proof. exact check_pre_omitted. Qed.
+
 (* a bare expression (simplify_complex_numeric_expression) *)
 Theorem C13_expression_sound : forall d hs e o,
   check_expr d hs e o = true ->
@@ -90,6 +100,13 @@ Proof. exact convert_text. Qed.
 Theorem C13_number_rounding : forall d v tv, Qabs (href d v tv - pnum_value (number_atom d v tv)) <= tol_of d.
 Proof. exact number_atom_close. Qed.
 
+(* the reference value of a Float atom (the decimal that str(Float) shows: 15 significant digits) is within 5e-15,
+   relative, of the exact binary value, for 1e-400 <= |v| < 1e400 *)
+Theorem C13_float_reference_close : forall d v,
+  (v == 0 \/ (q10 (-400) <= Qabs v /\ Qabs v < q10 400)) ->
+  Qabs (href d v (sig15 v) - v) <= (5 # 1) * q10 (-15) * Qabs v.
+Proof. exact href_close. Qed.
+
 (* transform_expression (after the repair of D21): the symbol table stays injective - every function text has its own
    symbol, and a symbol is printed back as the one text it was made for.  (Before the repair the full-strength
    statement was refuted by (f-x ?a) / (fx ?a).) *)
@@ -109,12 +126,14 @@ Print Assumptions C13_norm_sound.
 Print Assumptions C13_glue.
 Print Assumptions C13_glue_text.
 Print Assumptions C13_number_rounding.
+Print Assumptions C13_float_reference_close.
 Print Assumptions C13_naming_injective.
 Print Assumptions C13_naming_total.
 Print Assumptions C13_symbol_printed_back.
 Print Assumptions C13_ratfun_sound.
 Print Assumptions C13_checker_sound.
 Print Assumptions C13_inequality_sound.
+Print Assumptions C13_omitted_condition_implied.
 Print Assumptions C13_expression_sound.
 Print Assumptions C13_omitted_only_if_implied.
 Print Assumptions C13_eround_zero.
